@@ -70,54 +70,66 @@ def pipeline(tid, spec, gd, rng, events):
     ev("GenPT")
     V = np.asarray(got["volumes"], dtype=float)
     n = len(V)
-    T = rng.choice([200.0, 273.0, 300.0, 400.0])
-    kk = np.array([rng.randint(0, 6) for _ in range(n)])
-    E = kk * (2 * kB * N_A * T * math.log(2) / 1000.0)
-    ev("ComputeEnergy")
-    D = rng.choice([0.5, 1.0, 2.0])
-    rate = dict(tid=tid, ev="BuildRate", err="", n=n, adj=[], cond=[], sh=[], rowsum9=0, connected=True)
-    try:
-        with quiet():
-            Q = SQRA(E, V, got["distances"], got["borders"]).get_rate_matrix(D, T)
-        Qc = Q.tocoo()
-        A = got["adjacency"].tocoo()
-        Sm, hm = got["borders"].tocsr(), got["distances"].tocsr()
-        vc = ValueClasses(rel=1e-9, abs_=1e-300)
-        off = [(int(i), int(j), float(v)) for i, j, v in zip(Qc.row, Qc.col, Qc.data) if i != j and v != 0]
-        cond = [(i, j, v * V[i] * 2.0 ** (int(kk[j]) - int(kk[i])) / D) for i, j, v in off]
-        shv = [(int(i), int(j), float(Sm[i, j]) / float(hm[i, j])) for i, j, v in zip(A.row, A.col, A.data) if v]
-        vc.add([c[2] for c in cond], [c[2] for c in shv])
-        rate["adj"] = [[int(i), int(j)] for i, j, v in zip(A.row, A.col, A.data) if v]
-        rate["cond"] = [[i, j, int(vc.ids(v))] for i, j, v in cond]
-        rate["sh"] = [[i, j, int(vc.ids(v))] for i, j, v in shv]
-        rs = np.abs(np.asarray(Q.sum(axis=1)).ravel()) / np.maximum(np.abs(Q.diagonal()), 1e-300)
-        rate["rowsum9"] = int(np.ceil(rs.max() * 1e9))
-        ncomp, _ = connected_components(A.tocsr(), directed=False)
-        rate["connected"] = bool(ncomp == 1)
-    except Exception as ex:
-        rate["err"] = type(ex).__name__
+    # the geometry as it was read, taken BEFORE the package's code sees it
+    A = got["adjacency"].tocoo().copy()
+    Sm0, hm0 = got["borders"].tocsr().copy(), got["distances"].tocsr().copy()
+    shv = [(int(i), int(j), float(Sm0[i, j]) / float(hm0[i, j])) for i, j, v in zip(A.row, A.col, A.data) if v]
+    ncomp, _ = connected_components(A.tocsr(), directed=False)
+    # two models from the SAME loaded matrices (as in a temperature / energy scan): both must be right
+    for pass_no in (0, 1):
+        T = rng.choice([200.0, 273.0, 300.0, 400.0])
+        kk = np.array([rng.randint(0, 6) for _ in range(n)])
+        E = kk * (2 * kB * N_A * T * math.log(2) / 1000.0)
+        ev("ComputeEnergy")
+        D = rng.choice([0.5, 1.0, 2.0])
+        rate = dict(tid=tid, ev="BuildRate", err="", n=n, adj=[], cond=[], sh=[], rowsum9=0, connected=bool(ncomp == 1))
+        try:
+            with quiet():
+                Q = SQRA(E, V, got["distances"], got["borders"]).get_rate_matrix(D, T)
+            Qc = Q.tocoo()
+            vc = ValueClasses(rel=1e-9, abs_=1e-300)
+            off = [(int(i), int(j), float(v)) for i, j, v in zip(Qc.row, Qc.col, Qc.data) if i != j and v != 0]
+            cond = [(i, j, v * V[i] * 2.0 ** (int(kk[j]) - int(kk[i])) / D) for i, j, v in off]
+            vc.add([c[2] for c in cond], [c[2] for c in shv])
+            rate["adj"] = [[int(i), int(j)] for i, j, v in zip(A.row, A.col, A.data) if v]
+            rate["cond"] = [[i, j, int(vc.ids(v))] for i, j, v in cond]
+            rate["sh"] = [[i, j, int(vc.ids(v))] for i, j, v in shv]
+            rs = np.abs(np.asarray(Q.sum(axis=1)).ravel()) / np.maximum(np.abs(Q.diagonal()), 1e-300)
+            rate["rowsum9"] = int(np.ceil(rs.max() * 1e9))
+        except Exception as ex:
+            rate["err"] = type(ex).__name__
+            events.append(rate)
+            return
         events.append(rate)
-        return
-    events.append(rate)
     # Decomposition only for n >= 48: on tiny matrices (k = 6 eigenvalues requested from a 21 x 21 matrix, where ARPACK's
     # Krylov space is nearly the full space) scipy's eigs was observed to MISS the zero eigenvalue depending on ARPACK's
     # internal random start vector (not reproducible, history dependent) - see DESIGN 11.6
     if not rate["connected"] or n < 48:
         return
-    for sigma, which in ((None, "LR"), (0.05 * float(np.abs(Q.diagonal()).max()), "LM")):
+    dense_all = np.linalg.eigvals(Q.toarray().T)
+    rho = float(np.max(np.abs(dense_all)))
+    top = np.sort(dense_all.real)[::-1]
+    inside = float((top[1] + top[2]) / 2)            # a shift INSIDE the spectrum that is no eigenvalue
+    settings = [(None, "LR"), (0.05 * float(np.abs(Q.diagonal()).max()), "LM")]
+    if abs(top[1] - top[2]) > 1e-4 * rho:
+        settings.append((inside, "LM"))
+    for sigma, which in settings:
         dec = dict(tid=tid, ev="Decompose", err="", lam=[], dense=[], imag=0, spread=0, k=6, sigma=0 if sigma is None else 1)
         try:
             with quiet():
                 lam, vec = DecompositionTool(Q).get_decomposition(tol=1e-12, maxiter=100000, which=which, sigma=sigma, k=6)
-            dense = np.linalg.eigvals(Q.toarray().T)
-            rho = float(np.max(np.abs(dense)))
-            dr = np.sort(dense.real)[::-1][:len(lam)]
+            if sigma is None:
+                dr = top[:len(lam)]
+            else:        # shift-invert returns the eigenvalues nearest to the shift
+                near = dense_all.real[np.argsort(np.abs(dense_all.real - sigma))[:len(lam)]]
+                dr = np.sort(near)[::-1]
             dec["lam"] = [int(round(x / rho * 1e6)) for x in lam]
             dec["dense"] = [int(round(x / rho * 1e6)) for x in dr]
-            dec["imag"] = int(np.ceil(np.max(np.abs(dense.imag)) / rho * 1e6))
+            dec["imag"] = int(np.ceil(np.max(np.abs(dense_all.imag)) / rho * 1e6))
             pi = V * 2.0 ** (-2.0 * kk)
-            ratio = vec[:, 0] / pi
-            dec["spread"] = int(np.ceil((ratio.max() - ratio.min()) / abs(ratio.mean()) * 1e6))
+            lead = int(np.argmax(lam))                   # the eigenvector belonging to the largest returned eigenvalue
+            ratio = vec[:, lead] / pi
+            dec["spread"] = int(np.ceil((ratio.max() - ratio.min()) / abs(ratio.mean()) * 1e6)) if abs(dr[0]) <= 1e-6 * rho else 0
         except Exception as ex:
             dec["err"] = type(ex).__name__
         events.append(dec)
